@@ -35,6 +35,11 @@ func (te *tableEngine) tableGameOpen() error {
 			for i := 0; i < retry; i++ {
 				time.Sleep(time.Second * 3)
 
+				// the table may have been closed or released while we waited
+				if te.isReleased || te.table.State.Status == TableStateStatus_TableClosed {
+					return nil
+				}
+
 				// 已經開始新的一手遊戲，不做任何事
 				gameStartingStatuses := []TableStateStatus{
 					TableStateStatus_TableGameOpened,
